@@ -63,6 +63,7 @@ import (
 	"fmt"
 	"os"
 	"path/filepath"
+	"regexp"
 	"runtime/debug"
 	"sort"
 	"strings"
@@ -613,11 +614,14 @@ func c23errClass(err error) string {
 			return k
 		}
 	}
-	if len(m) > 40 {
-		m = m[:40]
+	m = c23idPattern.ReplaceAllString(m, "<id>") // transaction ids / addresses would make every message distinct
+	if len(m) > 60 {
+		m = m[:60]
 	}
 	return m
 }
+
+var c23idPattern = regexp.MustCompile(`[A-Z2-7]{52,58}`)
 
 func c23submit(ev *eval.BlockEvaluator, grp []transactions.SignedTxn) error {
 	err := ev.TestTransactionGroup(grp)
